@@ -37,11 +37,15 @@ fn read_message(stream: &mut UnixStream, buf: &mut Vec<u8>) -> std::io::Result<S
     let mut tmpbuf = [0u8; 512];
     while !has_line_ending(buf) {
         let bytes = stream.read(&mut tmpbuf[..])?;
+        if bytes == 0 {
+            // the other side closed the connection before sending a complete line
+            return Err(std::io::ErrorKind::UnexpectedEof.into());
+        }
         buf.extend_from_slice(&tmpbuf[..bytes])
     }
     let idx = find_line_ending(buf).unwrap();
     let line = buf.drain(0..idx).collect::<Vec<_>>();
-    Ok(String::from_utf8(line).unwrap())
+    String::from_utf8(line).map_err(|e| std::io::Error::new(std::io::ErrorKind::InvalidData, e))
 }
 
 fn get_uid_as_hex() -> String {
